@@ -185,78 +185,126 @@ def r1r2(ctx: Ctx) -> None:
     f = ctx.fn("filters._file_may_match")
     R = pruning_roles(ctx, f)
     MIN, MAX, VAL = R["min"], R["max"], R["expr"] + ".value"
-    branches = op_branches(ctx, f)
-    if "?" in branches:
-        for _c, r, _x in branches["?"]:
-            ctx.ob("C13.R1", f, "`return False` outside an operator branch", r, False,
-                   "a file is skipped without an operator-specific bounds argument")
-    if len([k for k in branches if k != "?"]) < 5:
-        raise AnalysisError(f"only {len(branches)} pruning branches found in _file_may_match")
+    g = ctx.cfg(f)
+    # operator dispatch branches: `<expr>.op == FilterOp.X` (either operand order, == or !=)
+    opb: Dict[int, Tuple[str, bool]] = {}
+    for b in g.nodes:
+        if b.kind == "branch" and isinstance(b.ast, ast.Compare) and len(b.ast.ops) == 1 and isinstance(b.ast.ops[0], (ast.Eq, ast.NotEq, ast.Is, ast.IsNot)) \
+                and b.id in g.reachable():
+            l_, r_ = b.ast.left, b.ast.comparators[0]
+            for x, y in ((l_, r_), (r_, l_)):
+                if isinstance(x, ast.Attribute) and x.attr == "op" and isinstance(y, ast.Attribute) and dotted(y.value) == "FilterOp":
+                    opb[b.id] = (y.attr, isinstance(b.ast.ops[0], (ast.Eq, ast.Is)))
+    ops_found = sorted({o for o, _p in opb.values()})
+    if len(ops_found) < 5:
+        raise AnalysisError(f"only {len(ops_found)} pruning branches found in _file_may_match")
+    adom = ctx.dom(f, ALL)
+    start = min(opb, key=lambda i: (len([j for j in opb if j in adom[i]]), i))
+
+    def run(op: str, env: Dict[str, Any]) -> str:
+        """Interpret the CFG of one loop iteration from the operator dispatch, for operator `op` under the order-type
+        environment `env`: 'skip' (return False) or 'keep' (anything else)."""
+        cur: Optional[int] = start
+        envl = dict(env)
+        for _step in range(500):
+            if cur is None or cur == g.exit:
+                return "keep"
+            n = g.nodes[cur]
+            if n.kind == "return":
+                v = n.ast.value  # type: ignore[union-attr]
+                val = ev(v, envl) if v is not None else None
+                return "skip" if val is False else "keep"
+            if n.kind in ("loop", "loop_head", "raise"):
+                return "keep"
+            if n.kind == "branch" and n.ast is not None:
+                if cur in opb:
+                    val = (opb[cur][0] == op) == opb[cur][1]
+                else:
+                    val = bool(ev(n.ast, envl))
+                cur = edge_target(g, n, "true" if val else "false")
+                continue
+            if n.kind == "stmt" and isinstance(n.ast, (ast.Assign, ast.AnnAssign)) and getattr(n.ast, "value", None) is not None:
+                tg = n.ast.targets if isinstance(n.ast, ast.Assign) else [n.ast.target]
+                if len(tg) == 1 and isinstance(tg[0], ast.Name):
+                    envl[tg[0].id] = ev(n.ast.value, envl)
+                else:
+                    raise Unknown("assignment to " + norm_text(tg[0]))
+            elif n.kind == "stmt" and isinstance(n.ast, (ast.AugAssign, ast.Delete)):
+                raise Unknown(type(n.ast).__name__)
+            nxt = [d for d, l in g.succ[cur] if l in NORMAL]
+            cur = nxt[0] if nxt else None
+        raise Unknown("no decision within 500 steps")
+
     dom_vals = range(4)
-    for op, lst in sorted(branches.items()):
-        if op == "?":
-            continue
+    anchor = {o: g.nodes[min(i for i, (oo, _p) in opb.items() if oo == o)] for o in ops_found}
+    # an expression whose operator has no dispatch branch is never a reason to skip
+    try:
+        stray = [(mn, mx, v) for mn in dom_vals for mx in range(mn, 4) for v in dom_vals
+                 if run("<other>", {MIN: mn, MAX: mx, VAL: v, "__types__": {MIN: "int", MAX: "int", VAL: "int"}}) == "skip"]
+    except Unknown as u:
+        stray = [("?", "?", str(u))]
+    ctx.ob("C13.R1", f, "no skip without an operator-specific bounds argument", g.nodes[start], not stray,
+           "for an operator outside the dispatch the iteration never returns False" if not stray else
+           f"an expression with an operator outside the dispatch makes the file be skipped (e.g. min,max,literal = {stray[0]})", text="other")
+    for op in ops_found:
+        r = anchor[op]
         if op not in OPS:
-            ctx.ob("C13.R1", f, f"operator {op} has a known predicate", lst[0][1], False, f"no row-level semantics for {op}")
+            ctx.ob("C13.R1", f, f"operator {op} has a known predicate", r, False, f"no row-level semantics for {op}")
             continue
-        for cond, r, locs in lst:
-            local_defs = {st.targets[0].id: st.value for st in locs}  # type: ignore[attr-defined]
-            cells = 0
-            skips = 0
-            bad: Optional[str] = None
-            unknown: Optional[str] = None
-            lits: List[Any]
-            if op in ("IN", "NOT_IN"):
-                lits = [list(c) for k in (0, 1, 2) for c in itertools.product(dom_vals, repeat=k)]
-            else:
-                lits = list(dom_vals)
-            for mn in dom_vals:
-                for mx in dom_vals:
-                    if mn > mx:
-                        continue
-                    for v in lits:
-                        env = {MIN: mn, MAX: mx, VAL: v, "__locals__": local_defs,
-                               "__types__": {MIN: "int", MAX: "int", VAL: "int"}}
-                        try:
-                            skip = bool(ev(cond, env))
-                        except Unknown as u:
-                            unknown = str(u)
-                            break
-                        cells += 1
-                        if not skip:
-                            continue
-                        skips += 1
-                        for x in range(mn, mx + 1):
-                            if OPS[op](x, v) and bad is None:
-                                bad = f"min={mn} max={mx} literal={v}: skipped although a row with value {x} satisfies {op}"
-                    if unknown:
+        cells = 0
+        skips = 0
+        bad: Optional[str] = None
+        unknown: Optional[str] = None
+        lits: List[Any]
+        if op in ("IN", "NOT_IN"):
+            lits = [list(c) for k in (0, 1, 2) for c in itertools.product(dom_vals, repeat=k)]
+        else:
+            lits = list(dom_vals)
+        for mn in dom_vals:
+            for mx in range(mn, 4):
+                for v in lits:
+                    env = {MIN: mn, MAX: mx, VAL: v, "__types__": {MIN: "int", MAX: "int", VAL: "int"}}
+                    try:
+                        skip = run(op, env) == "skip"
+                    except Unknown as u:
+                        unknown = str(u)
                         break
+                    cells += 1
+                    if not skip:
+                        continue
+                    skips += 1
+                    for x in range(mn, mx + 1):
+                        if OPS[op](x, v) and bad is None:
+                            bad = f"min={mn} max={mx} literal={v}: skipped although a row with value {x} satisfies {op}"
                 if unknown:
                     break
             if unknown:
-                ctx.ob("C13.R1", f, f"{op}: skip condition is in the comparison-only language", r, False,
-                       f"`{norm_text(cond)}` uses `{unknown}` which the order-type interpreter does not model")
-                continue
-            ctx.ob("C13.R1", f, f"{op}: skip `{norm_text(cond)[:70]}` is sound over all weak orderings", r, bad is None,
-                   f"{cells} (ordering x literal) cells, {skips} skipping; " + (bad or "every skip excludes every value in [min, max]"),
-                   text=op)
-            # R2: float world
-            if op in TRUE_FOR_INCOMPARABLE:
-                can_skip_float = False
-                for mn in dom_vals:
-                    for mx in range(mn, 4):
-                        for v in (lits if op not in ("IN", "NOT_IN") else lits[:6]):
-                            env = {MIN: float(mn), MAX: float(mx), VAL: v, "__locals__": local_defs,
-                                   "__types__": {MIN: "float", MAX: "float", VAL: "float"}}
+                break
+        if unknown:
+            ctx.ob("C13.R1", f, f"{op}: skip decision is in the comparison-only language", r, False,
+                   f"the {op} branch uses `{unknown}` which the order-type interpreter does not model", text=op)
+            continue
+        ctx.ob("C13.R1", f, f"{op}: the skip decision is sound over all weak orderings", r, bad is None,
+               f"{cells} (ordering x literal) cells, {skips} skipping; " + (bad or "every skip excludes every value in [min, max]"),
+               text=op)
+        # R2: float world
+        if op in TRUE_FOR_INCOMPARABLE:
+            can_skip_float = False
+            for mn in dom_vals:
+                for mx in range(mn, 4):
+                    for v in (lits if op not in ("IN", "NOT_IN") else lits[:6]):
+                        for vt in ("float", "int"):
+                            env = {MIN: float(mn), MAX: float(mx), VAL: (float(v) if vt == "float" and not isinstance(v, list) else v),
+                                   "__types__": {MIN: "float", MAX: "float", VAL: vt}}
                             try:
-                                if ev(cond, env):
+                                if run(op, env) == "skip":
                                     can_skip_float = True
                             except Unknown:
                                 can_skip_float = True
-                ctx.ob("C13.R2", f, f"{op} never prunes on float bounds", r, not can_skip_float,
-                       "min/max statistics ignore NaN rows and NaN " + ("!=" if op == "NE" else "not in") + " v is TRUE: with float "
-                       "bounds [v, v] a file holding a NaN row would be skipped although that row matches"
-                       if can_skip_float else "guarded by a type test excluding float bounds", text=op)
+            ctx.ob("C13.R2", f, f"{op} never prunes on float bounds", r, not can_skip_float,
+                   "min/max statistics ignore NaN rows and NaN " + ("!=" if op == "NE" else "not in") + " v is TRUE: with float "
+                   "bounds [v, v] a file holding a NaN row would be skipped although that row matches"
+                   if can_skip_float else "guarded by a type test excluding float bounds", text=op)
     if not any(o.rule == "C13.R2" for o in ctx.obs):
         ctx.ob("C13.R2", f, "no operator that is true for incomparable values prunes", None, True,
                "NE / NOT_IN have no pruning branch", nontrivial=False)
@@ -290,10 +338,13 @@ def r3(ctx: Ctx) -> None:
                 ok = False
         ctx.ob("C13.R3", f, f"`{pat}` keeps the file", brs[0] if brs else None, ok, "no bounds / unknown column => cannot prune", text=pat)
     # all `return False` sit inside the try body
-    rf = [n for n in g.nodes if n.kind == "return" and isinstance(n.ast.value, ast.Constant) and n.ast.value.value is False]  # type: ignore[union-attr]
-    tries = [n for n in ast.walk(f.node) if isinstance(n, ast.Try)]
-    ok = bool(tries) and all(any(in_try_body(r, t) for t in tries) for r in rf)
-    ctx.ob("C13.R3", f, "every comparison sits inside the TypeError guard", rf[0] if rf else None, ok, "")
+    # every ORDERING comparison against a bound is evaluated where a TypeError is caught (literal and bound of different types)
+    cmpn = [n for n in g.nodes if n.ast is not None and n.kind in ("branch", "stmt", "return") and n.id in g.reachable()
+            and any(isinstance(x, ast.Compare) and any(isinstance(o, (ast.Lt, ast.LtE, ast.Gt, ast.GtE)) for o in x.ops)
+                    and ({R["min"], R["max"]} & set(names_in(x))) for x in ast.walk(n.ast))]
+    unguarded = [n for n in cmpn if ctx.eff.propagate(f, {"TypeError"}, n.frames, record=False)[0]]
+    ctx.ob("C13.R3", f, "every comparison sits inside the TypeError guard", unguarded[0] if unguarded else (cmpn[0] if cmpn else None),
+           bool(cmpn) and not unguarded, f"{len(cmpn)} ordering comparisons against the bounds, {len(unguarded)} outside a TypeError handler")
 
 
 def _isinstance_chain(f: FunctionInfo, var: str) -> List[str]:
